@@ -520,6 +520,18 @@ mod e2e {
         match run(raw, 1, false) { Ok(o1) => { if o1.len() != out.len() { bad.push(("c05_short_write".into(), format!("{} of {} bytes delivered with 1-byte writes", o1.len(), out.len()))); } }
                                    Err(e) => bad.push(("c04_panic".into(), e)) }
         if let Err(e) = run(raw, 0, true) { bad.push(("c04_panic_flush".into(), e)); }
+        // C09: HEAD answers like GET without a body; OPTIONS on a servable path is a bodiless success
+        if method == "HEAD" || method == "OPTIONS" {
+            let as_get = [b"GET".as_ref(), &raw[method.len()..]].concat();
+            if let Ok(og) = run(&as_get, 0, false) { if let Some(pg) = parse(&og) {
+                let strip = |p: &Parsed| -> Vec<(String, String)> { p.headers.iter().filter(|(k, _)| k != "Date-Unix-Epoch-Nanos" && !k.starts_with("Access-Control-")).cloned().collect() };
+                if method == "HEAD" && (pg.status == 200 || pg.status == 206) {
+                    if p.status != pg.status { bad.push(("c09_head_status".into(), format!("HEAD {} but GET {}", p.status, pg.status))); }
+                    else if strip(&p) != strip(&pg) { bad.push(("c09_head_headers".into(), format!("HEAD {:?} vs GET {:?}", strip(&p), strip(&pg)))); }
+                }
+                if method == "OPTIONS" && pg.status == 200 && !(p.status == 200 || p.status == 204) { bad.push(("c09_options_status".into(), format!("OPTIONS {} but GET {}", p.status, pg.status))); }
+            } }
+        }
         // C01
         if out.windows(9).any(|w| w == b"TOPSECRET") { bad.push(("c01_outside_root".into(), format!("{}: response carries the file outside the served directory", name))); }
         bad
